@@ -13,6 +13,7 @@ EXPLANATION = (
     "0), OutputVariable.defuzzify arguments, Antecedent.activation_degree (path-sensitive abstract interpretation of "
     "the 7 dispatch cases), Aggregated.activation_degree lookup; the three operators of the block reach activate_with / trigger under "
     "every activation method (P2 x 7); who-may-call: only Rule.trigger (or a caller guarded by the rule's enabled flag) modifies a consequent"
+    "; P11 - General, First, Threshold (forwards) and Last (backwards) fire a selected rule before they compute the degree of the next rule: an output variable read by a later antecedent sees the contributions accumulated so far"
 )
 ASSUMPTIONS = ["decides how the stages are connected on every path; the numeric values of the stages are not decided"]
 FLOORS = {"P1": 3, "P2": 21, "A-sem": 2, "O-dea": 1, "P3": 3, "P4": 3, "P5": 3, "P6": 2, "P7": 3, "P8": 3, "P9": 7, "P10": 2}
